@@ -92,6 +92,10 @@ var supports = map[string][]support{
 	"C09": {
 		{From: "C16", Rules: []string{"G-batch-code"},
 			Why: "the rules of this check read the code generated for one-file requests; a file's output must not depend on the other files of the request for them to hold for the code every request produces"},
+		{From: "C01", Rules: []string{"B-roundtrip", "E-write-advance", "E-bytes"},
+			Why: "every byte of the output has to be stored by the encoder (the round-trip harnesses start from a buffer of unknown bytes): MarshalTo into a reused buffer otherwise hands back what the buffer held before"},
+		{From: "C06", Rules: []string{"U-reset"},
+			Why: "Unmarshal replaces the contents of the message: the Reset at its start is also what invalidates the cached size of the old contents"},
 		{From: "C11", Rules: []string{"D6", "D6c"},
 			Why: "csproto.Size and csproto.Marshal classify the message through MsgType on every call: its cache has to be safe for the concurrent Size/Marshal calls of the second clause"},
 		{From: "C11", Rules: []string{"D8"}, Under: []string{"Clone"},
